@@ -451,7 +451,8 @@ def minimize_lbfgsb(
     # print(sf.scaling_factor)
 
     f0 *= sf.scaling_factor
-    grad *= sf.scaling_factor
+    # not in place: on a restart grad is the caller's checkpoint.jac
+    grad = grad * sf.scaling_factor
     # Note, no need to further update anything because the scaling is handled by the
     # ScalarFunction instance
 
